@@ -246,6 +246,12 @@ Theorem C06_split_regex_rebuild : forall ln ms,
 Proof. exact split_re_rebuild. Qed.
 Print Assumptions C06_split_regex_rebuild.
 
+(* RS = "" with a one-character FS: newline separates too (and a CR before it goes); no field
+   keeps a newline *)
+Theorem C06_rs_empty_no_newline : forall fl, Forall (fun f => ~ In 10 f) (split_newlines fl).
+Proof. exact split_newlines_fields_have_no_newline. Qed.
+Print Assumptions C06_rs_empty_no_newline.
+
 (* ---------------- the hypotheses are satisfiable ---------------- *)
 
 (* the executable engine (Lib/Regex.v, the one the correspondence check runs) is an engine_ok *)
